@@ -17,11 +17,19 @@ Every generated session is run FOUR ways: {extracted model, real implementation}
        counterfactual switch mark_first is run on every session; a session on which it changes the observable
        is a witness of (e) (they all involve close_loop() at level 0: the mark is skipped when the except clause of
        _run_handlers itself raises); reported under the known key glib-mark-after-handlers, count in the evidence.
+  (vi) APPLICATION sessions (second family): screen specs + typed lines (harness/screen_gen.py) run four ways — real App on
+       MainLoop (harness/screen_worker.py), real App on GLibEventLoop over libglib (same worker, VERIF_SCREEN_LOOP=glib,
+       typed lines released by the idle gate), ScreenSem on the MainLoop model (`bin/model screen`) and on the GLib model
+       (`bin/model gscreen`, GLibApp.v).  Compared: outcomes + the whole sequence of user-visible events (EUser: setup,
+       refresh, show, separator, prompt, input delivered to which screen, closed, modal return, stack operations ...)
+       up to the quit.  model = implementation for each loop; differences between the two real loops are classified
+       from the loop-level events of the same traces into the same known keys.
   (v)  theorem C20_agree_partial: every session for which the extracted `in_fragment` answers true must show the same
        outcomes and the same handler/mark sequence on the two REAL loops (key fragment-agreement otherwise).
 """
 import json, os, sys, copy, time, subprocess
 import lib, loop_impl, loop_gen, glib_impl, c20_gen
+import screen_gen, screen_impl, screen_check, c20_app
 import c20_diff as D
 
 sys.path.insert(0, os.path.join(lib.VERIF, "corpus", "glib"))
@@ -331,7 +339,143 @@ def run(chk, tier):
     chk.extra["sessions_in_fragment_of_C20_agree_partial"] = dict(total=nfrag, nontrivial=nfrag_nt)
     chk.extra["known_finding_keys"] = sorted(D.KEYS)
     chk.notes.append("level: proof (partial) — refutation + findings + agreement proved on a decidable fragment; GLib itself is a validated model")
-    chk.notes.append("wall of the run part: %.1fs" % (time.time() - t0))
+    chk.notes.append("wall of the loop-session part: %.1fs" % (time.time() - t0))
+    run_apps(chk, tier)
+
+
+# ------------------------------------------------------------------------------------------------ application sessions
+def app_obs(res):
+    """outcomes + every user-visible event up to the quit"""
+    return [res[0], [e for e in D.upto_quit(res[1]) if e[0] == 19]]
+
+
+def app_nontrivial(i, g):
+    def ok(res):
+        us = [e for e in res[1] if e[0] == 19]
+        shown = {e[2][1] for e in us if e[1] == 3}
+        return len(shown) >= 2 and any(e[1] == 10 for e in us) and any(e[1] == 7 for e in us)
+    return ok(i) and ok(g)
+
+
+def gen_app_cases(rng, n):
+    cases = []
+    for k in range(n):
+        r = rng.random()
+        cases.append(screen_gen.gen_case(rng, plausible=(r < 0.7), malformed=(r > 0.88)))
+    for prop in ("C04", "C05", "C08", "C06", "C07", "C18"):
+        for k in range(n // 10):
+            cases.append(screen_gen.gen_focus_case(rng, prop))
+    return [c[:6] for c in cases]
+
+
+def run_apps(chk, tier):
+    rng = chk.rng
+    n = dict(quick=1500, thorough=15000)[tier]
+    cases = gen_app_cases(rng, n)
+    t0 = time.time()
+    im = screen_impl.run_cases(cases, nproc=12)
+    ig = c20_app.run_cases_glib(cases, nproc=12)
+    kept = []
+    st = dict(total=len(cases), main_hang=0, step_limit=0, glib_unfinished=0, agree=0, differ=0, corr_main=0, corr_glib=0, nontrivial=0)
+    suspects = []
+    for c, a, b in zip(cases, im, ig):
+        chk.count()
+        if a[0] == "ERROR" or b[0] == "ERROR":
+            chk.violation("harness-error", "a screen worker failed on an application session: %s" % str((a if a[0] == "ERROR" else b)[1])[:300],
+                          dict(kind="c20app", case=c), found=False)
+            continue
+        if a[0] == "HANG":
+            st["main_hang"] += 1; chk.hist("app:discarded:mainloop-hangs(F14)"); continue
+        if 5 in a[0]:
+            st["step_limit"] += 1; chk.hist("app:discarded:step-limit"); continue
+        if b[0] == "HANG" or 5 in b[0]:
+            suspects.append((c, a, b)); continue
+        kept.append(([200 + 8 * max(len(a[1]), len(b[1]))] + c[1:6], a, b))
+    # the GLib application does not finish although the MainLoop one does: legitimate only if the GLib model diverges too
+    if suspects:
+        ms = lib.model_run("gscreen", [[2500] + c[1:6] for c, _, _ in suspects], timeout=300)
+        for (c, a, b), m in zip(suspects, ms):
+            if 5 in m[0]:
+                st["glib_unfinished"] += 1; chk.hist("app:discarded:glib-diverges-in-model-too")
+            else:
+                again = c20_app.run_alone_glib(c) if b[0] == "HANG" else b
+                if again[0] in ("HANG", "ERROR") or 5 in again[0]:
+                    chk.violation("glib-app-does-not-finish", "the real App on GLibEventLoop does not finish a session that the GLib model "
+                                  "finishes with outcomes %s (MainLoop: %s)" % (m[0], a[0]), dict(kind="c20app", case=c), found=True)
+                else:
+                    kept.append(([200 + 8 * max(len(a[1]), len(again[1]))] + c[1:6], a, again))
+    mm = lib.model_run("screen", [k[0] for k in kept], timeout=600)
+    mg = lib.model_run("gscreen", [k[0] for k in kept], timeout=600)
+    reported = set()
+    for (c, a, b), m1, m2 in zip(kept, mm, mg):
+        oa, ob, o1, o2 = app_obs(a), app_obs(b), app_obs(m1), app_obs(m2)
+        if app_nontrivial(a, b):
+            st["nontrivial"] += 1; chk.nontriv(c)
+        # full user sequence (not cut at the quit) + final stack for the correspondences
+        fa = [a[0], [e for e in a[1] if e[0] == 19], a[2]]
+        f1 = [m1[0], [e for e in m1[1] if e[0] == 19], m1[2]]
+        if fa != f1:
+            st["corr_main"] += 1
+            chk.violation("corr:app-main-model", "ScreenSem on the MainLoop model and the real App on MainLoop disagree on the user-visible "
+                          "sequence of a session", dict(kind="c20app", case=c, outcomes=[a[0], m1[0]]), found=False)
+        if b[:4] != m2[:4]:
+            st["corr_glib"] += 1
+            chk.violation("corr:app-glib-model", "ScreenSem on the GLibEventLoop model and the real App on GLibEventLoop (over libglib) "
+                          "disagree on a session (whole trace)", dict(kind="c20app", case=c, outcomes=[b[0], m2[0]]), found=False)
+        if oa == ob:
+            st["agree"] += 1
+            continue
+        st["differ"] += 1
+        key, desc = D.classify(c, a, b)
+        chk.hist("app:difference=%s" % key)
+        ua, ub = oa[1], ob[1]
+        k = next((k for k in range(min(len(ua), len(ub))) if ua[k] != ub[k]), min(len(ua), len(ub)))
+        detail = dict(kind="c20app", case=c, divergence=desc, outcomes=[a[0], b[0]],
+                      user_events_main=[screen_check.show(e) for e in ua[max(0, k - 8):k + 4]],
+                      user_events_glib=[screen_check.show(e) for e in ub[max(0, k - 8):k + 4]])
+        if oa != o1 or ob != o2:
+            chk.violation("unpredicted-difference", "an application behaves differently on the real MainLoop and the real GLibEventLoop in a way "
+                          "the two models do not predict", detail, found=True)
+        elif key is None:
+            chk.violation("unclassified-difference:app:%s/%s" % (D_name(desc["main_next"]), D_name(desc["glib_next"])),
+                          "an application shows different user-visible sequences on the two loops and the first loop-level divergence matches "
+                          "no known class", detail, found=True)
+        elif key not in reported:
+            reported.add(key)
+            chk.violation(key, "an APPLICATION differs between MainLoop and GLibEventLoop (%s): %s" % (key, D.KEYS[key]), detail, found=True)
+        if len(chk.samples) < 6 and key is not None and app_nontrivial(a, b) and not any("application" in str(x) for x in chk.samples):
+            chk.sample(dict(application_session=c, difference=key, user_events_main=detail["user_events_main"],
+                            user_events_glib=detail["user_events_glib"]), limit=6)
+    ncmp = len(kept)
+    st["compared"] = ncmp
+    st["agreement_rate_percent"] = round(100.0 * st["agree"] / ncmp, 2) if ncmp else None
+    chk.extra["application_sessions"] = st
+    chk.notes.append("application family: %.1fs" % (time.time() - t0))
+
+
+def replay_app(c):
+    a = screen_impl.run_alone(c[:6])
+    b = c20_app.run_alone_glib(c[:6])
+    print("outcomes MainLoop / GLib:", a[0], b[0])
+    if a[0] in ("HANG", "ERROR") or b[0] in ("HANG", "ERROR"):
+        return 1
+    c2 = [200 + 8 * max(len(a[1]), len(b[1]))] + c[1:6]
+    m1 = lib.model_run("screen", [c2])[0]
+    m2 = lib.model_run("gscreen", [c2])[0]
+    print("model = implementation on the user-visible sequence: MainLoop %s, GLib %s (GLib whole trace: %s)"
+          % (app_obs(a) == app_obs(m1), app_obs(b) == app_obs(m2), b[:4] == m2[:4]))
+    oa, ob = app_obs(a), app_obs(b)
+    rc = 0 if (app_obs(a) == app_obs(m1) and b[:4] == m2[:4]) else 1
+    if oa != ob:
+        key, desc = D.classify(c, a, b)
+        print("the application behaves DIFFERENTLY on the two loops; class: %s (%s)" % (key, desc))
+        k = next((k for k in range(min(len(oa[1]), len(ob[1]))) if oa[1][k] != ob[1][k]), min(len(oa[1]), len(ob[1])))
+        print(" MainLoop:"); [print("   ", screen_check.show(e)) for e in oa[1][max(0, k - 10):k + 4]]
+        print(" GLib    :"); [print("   ", screen_check.show(e)) for e in ob[1][max(0, k - 10):k + 4]]
+        rc = 1
+    else:
+        print("same user-visible sequence on both loops (%d events)" % len(oa[1]))
+    return rc
 
 
 def replay(path):
@@ -341,6 +485,8 @@ def replay(path):
     if c is None:
         print("nothing to re-run for this replay (%s)" % d["replay"].get("kind"))
         return 1
+    if d["replay"].get("kind") == "c20app":
+        return replay_app(c)
     i = run_main(c)
     with glib_impl.Worker(case_timeout=CASE_TIMEOUT) as w:
         g = w.run(copy.deepcopy(c))
